@@ -41,7 +41,7 @@ func init() {
 		Level:     "other",
 		Technique: "abstract interpretation: gate entailment with subject agreement — the NameState whose owner/admin is witnessed is the record keyed by the same token-id term that keys the record being changed",
 		Explanation: "For addRecord, setRecord, deleteRecords, updateSOA, renew: every effect is gated by committee-majority ∨ W(owner(T)) ∨ W(admin(T)) where T is exactly the token id that keys the written/deleted record; transfer by W(owner(token)); setAdmin by W(owner(name)) and additionally (admin == nil ∨ W(admin)); register by W(owner argument) and, for names of level > 2, additionally by the admin formula of the directly enclosing name (name without its first label); TLD registration by the committee (C03). " +
-			"Rights follow ownership because the gate reads the stored record in the same invocation and Transfer clears the admin (C10.D4). D5 Transfer stores the record with Admin := nil (transfer-resets-admin). M: SetAdmin stores the record on every normal return. R7: the documented gates of the NNS mutators (the gate rule of C03) are decided here as well.",
+			"Rights follow ownership because the gate reads the stored record in the same invocation and Transfer clears the admin (C10.D4). D5 Transfer stores the record with Admin := nil (transfer-resets-admin). M: SetAdmin stores the record on every normal return. R7: the documented gates of the NNS mutators (the gate rule of C03) are decided here as well. R8: the token whose owner/admin is asked is the one tokenIDFromName names (record-owner, shared with C12).",
 		NotCovered: "signer sets over evolving histories at run time (the statement is over program paths and stored state at invocation time).",
 		Run:        runC11,
 	})
@@ -59,7 +59,7 @@ func init() {
 		Level:     "other",
 		Technique: "must-facts: validation precedes every state change; dispatch coverage of the record types; numeric limits as facts at the accepting exits of the validators; digit fact on the first byte before every decimal Atoi",
 		Explanation: "D1 Register/RegisterTLD reach their first effect only after splitAndCheck accepted the name, AddRecord/SetRecord only after the type-specific validator accepted the data (A: checkIPv4, AAAA: checkIPv6, CNAME: name syntax, TXT: ≤ 255) and only for these four types; the accepting exits of the name validators establish 3 ≤ len ≤ 255, fragment length 1..63 (root: ≤ 16, first byte a letter). " +
-			"D2 sign-accepting parser: every decimal std.Atoi/Atoi10 in a validator is reached only with the first byte of its argument established to be a digit. D3 first and last byte of an accepted fragment are in [a-z0-9], the inner bytes are checked by one loop over 1…len−2 whose iterations complete only for '-' or [a-z0-9]. M: the fragment validator and safeSplitAndCheck are decided in both directions: no rejecting exit is satisfiable together with every documented condition. R6: a decimal fragment is accepted only if it does not start with '0' or is one byte long (canonical-decimal); in the ':'-splitting validator the zero-filled range of the elided run and the shifted slot of a later group are adjacent (gap-alignment).",
+			"D2 sign-accepting parser: every decimal std.Atoi/Atoi10 in a validator is reached only with the first byte of its argument established to be a digit. D3 first and last byte of an accepted fragment are in [a-z0-9], the inner bytes are checked by one loop over 1…len−2 whose iterations complete only for '-' or [a-z0-9]. M: the fragment validator and safeSplitAndCheck are decided in both directions: no rejecting exit is satisfiable together with every documented condition. R6: a decimal fragment is accepted only if it does not start with '0' or is one byte long (canonical-decimal); in the ':'-splitting validator the zero-filled range of the elided run and the shifted slot of a later group are adjacent (gap-alignment). R8: every storage key Register writes for a valid name fits the 64-byte key limit (no raw name component).",
 		NotCovered: "that the validators accept exactly the well-formed strings (hand-written scanners over run-time strings: IPv6 groups, inner hyphens, boundary lengths) — declared not applicable to this family; of the IPv4/IPv6 scanners only the leading-zero and the gap-alignment clauses are decided.",
 		Run:        runC18,
 	})
@@ -894,6 +894,9 @@ func runC11(cx *CheckCtx) {
 			gateRule(cx, m)
 		}
 	}
+	// … and the token whose owner/admin is asked is the right one: the longest registered, unexpired
+	// enclosing name (shared with C12)
+	checkRecordOwner(cx)
 	c := cx.contract("nns")
 	if c == nil {
 		return
@@ -1475,145 +1478,7 @@ func runC12(cx *CheckCtx) {
 		cx.count("getter_record_scans", nScan)
 		cx.floor("getter_record_scans", 3)
 	}
-	// ---- D10 the token a record belongs to: tokenIDFromName returns a proper suffix of the name
-	// only when that suffix is registered and unexpired, goes on to the next (shorter) suffix only
-	// when it is not, and returns the name itself only after every proper-suffix level was tried
-	if fn := nnsTokenIDFromNameFn(cx); fn != nil {
-		a := cx.analyze(&Query{Name: "std", Root: fn})
-		tb := a.tb
-		name := fnParam(tb, fn, 1)
-		var rd *Term
-		for _, s := range a.Sites(func(s *Site) bool { return s.Callee == "storage.Get" && keyFamily(s.Args[1]) == pfxName }) {
-			rd = s.Val
-		}
-		var ltLit int32
-		for id := int32(1); id < int32(len(a.lt.lits)); id++ {
-			l := a.lt.lits[id]
-			if l.Kind == KLt && l.A.contains(func(x *Term) bool { return isCall(x, "runtime.GetTime") }) && l.B.Op == "field" && l.B.Name == "Expiration" && rd != nil && l.B.Args[0].contains(func(x *Term) bool { return x == rd }) {
-				ltLit = id
-			}
-		}
-		ok, why := rd != nil && ltLit != 0, "the level record read or its expiry comparison is gone"
-		if ok {
-			why = ""
-			for _, ex := range a.Exits() {
-				if len(ex.Results) != 1 {
-					continue
-				}
-				r := ex.Results[0]
-				if r == name {
-					// only after exhaustion: the loop condition is false here
-					continue
-				}
-				if !(a.holdsAt(ex.State, -a.litNil(rd)) && a.holdsAt(ex.State, ltLit)) {
-					ok, why = false, "a suffix is returned as the owning token although it is not registered or has expired"
-				}
-			}
-			nHdr := 0
-			for _, h := range fn.Blocks {
-				if !isLoopHeader(h) {
-					continue
-				}
-				nHdr++
-				for _, p := range h.Preds {
-					if !h.Dominates(p) {
-						continue
-					}
-					if st := a.edgeState(tb.root, p, h); st != nil && !a.holdsAt(st, a.litNil(rd), -ltLit) {
-						ok, why = false, "a registered, unexpired suffix is passed over"
-					}
-				}
-				for _, e := range loopExits(h) {
-					if e.from == h {
-						continue
-					}
-					if _, isRet := e.to.Instrs[len(e.to.Instrs)-1].(*ssa.Return); isRet {
-						continue
-					}
-					// a break: only with the level found registered and unexpired
-					if st := a.edgeState(tb.root, e.from, e.to); st != nil && !(a.holdsAt(st, -a.litNil(rd)) && a.holdsAt(st, ltLit)) {
-						ok, why = false, "the loop over the suffixes can be left early"
-					}
-				}
-			}
-			if nHdr != 1 {
-				ok, why = false, "expected one loop over the suffix levels"
-			}
-		}
-		// the suffix of level i starts after the first i labels and their dots: sum starts at 0 and
-		// advances by len(label i) + 1; levels 0 … len(labels) − 2
-		if ok {
-			okArith := false
-			for _, h := range fn.Blocks {
-				if !isLoopHeader(h) {
-					continue
-				}
-				ifi, isIf := h.Instrs[len(h.Instrs)-1].(*ssa.If)
-				if !isIf {
-					continue
-				}
-				ct := tb.Term(tb.root, ifi.Cond)
-				if ct.Op != "bin" || ct.Name != "<" || len(ct.Args) != 2 || ct.Args[0].Op != "phi" {
-					continue
-				}
-				i := ct.Args[0]
-				var frs *Term
-				if ct.Args[1].Op == "sum" {
-					ct.Args[1].walk(func(x *Term) bool {
-						if x.Op == "len" {
-							frs = x.Args[0]
-						}
-						return true
-					})
-				}
-				if frs == nil || ct.Args[1] != tb.binop(token.SUB, tb.mk("len", "", 0, frs), tb.constInt(1), intType) {
-					continue
-				}
-				iOK := false
-				{
-					z, st := false, false
-					for _, al := range tb.Alts(i) {
-						if n, isC := al.IntConst(); isC && n == 0 {
-							z = true
-						} else if al == tb.binop(token.ADD, i, tb.constInt(1), intType) {
-							st = true
-						} else {
-							z = false
-						}
-					}
-					iOK = z && st
-				}
-				// the sum variable: the low bound of the returned / looked-up suffix
-				for _, ex := range a.Exits() {
-					if len(ex.Results) != 1 || ex.Results[0].Op != "slice" || ex.Results[0].Args[0] != name {
-						continue
-					}
-					sum := ex.Results[0].Args[1]
-					if sum.Op != "phi" {
-						continue
-					}
-					z, st := false, false
-					for _, al := range tb.Alts(sum) {
-						if n, isC := al.IntConst(); isC && n == 0 {
-							z = true
-						} else if d := tb.binop(token.SUB, tb.binop(token.SUB, al, sum, intType), tb.constInt(1), intType); d.Op == "len" &&
-							(d.Args[0].Op == "index" && d.Args[0].Args[0] == frs && d.Args[0].Args[1] == i || d.Args[0].Op == "elem" && d.Args[0].Args[0] == frs && tb.indexOfElem(d.Args[0]) == i) {
-							st = true
-						} else {
-							z = false
-						}
-					}
-					if iOK && z && st {
-						okArith = true
-					}
-				}
-			}
-			if !okArith {
-				ok, why = false, "the suffix of level i does not start after the first i labels and their dots (or the levels are not 0 … len−2)"
-			}
-		}
-		cx.decide(ok, "record-owner", "nns.tokenIDFromName", "the longest registered, unexpired proper suffix, else the name itself", "nns.tokenIDFromName: "+why+" — records are filed under (and read from) another token", w.pos(fn.Pos()))
-	}
+	checkRecordOwner(cx)
 	// ---- D9 type filters: wherever records of a scan are collected under a test of their type
 	// against the requested type, the collecting append sits on the "equal" side of that test
 	if p := w.ByPath[modPrefix+nnsPkg]; p != nil {
@@ -1727,6 +1592,48 @@ func runC18(cx *CheckCtx) {
 			}
 		}
 		cx.decide(ok && n > 0, "validate-first", "nns."+g.name, "every effect is preceded by safeSplitAndCheck(name) returning no error", g.name+" can change state for a name that was not validated", w.pos(m.Fn.Pos()))
+		// … and a valid name is not refused by the storage layer: a key may be at most 64 bytes, a valid
+		// name up to 255. No storage key written on the way carries the name (or a part of it that is not
+		// bounded by validation) as it is: every variable component is a hash, a single byte, or a value
+		// with an established length of at most 40 bytes
+		okKeys, whyKeys := true, ""
+		nKeys := 0
+		if g.name != "Register" {
+			continue // a TLD is one root label (≤ 16 bytes by validation): its key carries it as it is
+		}
+		for _, s := range a.RealEffects() {
+			if !isStore(s) {
+				continue
+			}
+			nKeys++
+			total := int64(0)
+			for _, part := range keyParts(s.Args[1]) {
+				switch {
+				case part.Op == "const":
+					if b, isB := part.BytesConst(); isB {
+						total += int64(len(b))
+					}
+				case isCall(part, "native/crypto.Ripemd160"):
+					total += 20
+				case isCall(part, "native/crypto.Sha256"):
+					total += 32
+				case part.Op == "byte":
+					total++
+				case a.holdsAt(s.In, a.litEqC(a.litLen(part), 20)):
+					total += 20
+				case part.Op == "field" && part.contains(func(x *Term) bool { return x.Op == "read" }):
+					total += 20 // a field of a stored record (an owner): validated when it was stored
+				case a.holdsAt(s.In, a.litLtC(a.litLen(part), 17)):
+					total += 16
+				default:
+					okKeys, whyKeys = false, "the key "+s.Args[1].pretty()+" carries "+part.pretty()+" with no bound on its length"
+				}
+			}
+			if total > 64 {
+				okKeys, whyKeys = false, fmt.Sprintf("the key %s can be %d bytes long", s.Args[1].pretty(), total)
+			}
+		}
+		cx.decide(okKeys && nKeys > 0, "limits", "nns."+g.name+"/keys-bounded", "every storage key written for a valid name fits the 64-byte key limit", g.name+" accepts a valid name and then faults in the storage layer: "+whyKeys+" — names that are valid by the documented syntax (up to 255 bytes) cannot be registered", w.pos(m.Fn.Pos()))
 	}
 	if m := cx.method("nns", "IsAvailable"); m != nil {
 		a := cx.run(m)
@@ -2299,4 +2206,150 @@ func splitOf(a *Analysis, t, name *Term) bool {
 		}
 	}
 	return false
+}
+
+// checkRecordOwner: D10 of C12, shared with C11 (the token whose owner or admin is asked for a record
+// mutation is the token tokenIDFromName names).
+func checkRecordOwner(cx *CheckCtx) {
+	w := cx.W
+	_ = w
+	// ---- D10 the token a record belongs to: tokenIDFromName returns a proper suffix of the name
+	// only when that suffix is registered and unexpired, goes on to the next (shorter) suffix only
+	// when it is not, and returns the name itself only after every proper-suffix level was tried
+	if fn := nnsTokenIDFromNameFn(cx); fn != nil {
+		a := cx.analyze(&Query{Name: "std", Root: fn})
+		tb := a.tb
+		name := fnParam(tb, fn, 1)
+		var rd *Term
+		for _, s := range a.Sites(func(s *Site) bool { return s.Callee == "storage.Get" && keyFamily(s.Args[1]) == pfxName }) {
+			rd = s.Val
+		}
+		var ltLit int32
+		for id := int32(1); id < int32(len(a.lt.lits)); id++ {
+			l := a.lt.lits[id]
+			if l.Kind == KLt && l.A.contains(func(x *Term) bool { return isCall(x, "runtime.GetTime") }) && l.B.Op == "field" && l.B.Name == "Expiration" && rd != nil && l.B.Args[0].contains(func(x *Term) bool { return x == rd }) {
+				ltLit = id
+			}
+		}
+		ok, why := rd != nil && ltLit != 0, "the level record read or its expiry comparison is gone"
+		if ok {
+			why = ""
+			for _, ex := range a.Exits() {
+				if len(ex.Results) != 1 {
+					continue
+				}
+				r := ex.Results[0]
+				if r == name {
+					// only after exhaustion: the loop condition is false here
+					continue
+				}
+				if !(a.holdsAt(ex.State, -a.litNil(rd)) && a.holdsAt(ex.State, ltLit)) {
+					ok, why = false, "a suffix is returned as the owning token although it is not registered or has expired"
+				}
+			}
+			nHdr := 0
+			for _, h := range fn.Blocks {
+				if !isLoopHeader(h) {
+					continue
+				}
+				nHdr++
+				for _, p := range h.Preds {
+					if !h.Dominates(p) {
+						continue
+					}
+					if st := a.edgeState(tb.root, p, h); st != nil && !a.holdsAt(st, a.litNil(rd), -ltLit) {
+						ok, why = false, "a registered, unexpired suffix is passed over"
+					}
+				}
+				for _, e := range loopExits(h) {
+					if e.from == h {
+						continue
+					}
+					if _, isRet := e.to.Instrs[len(e.to.Instrs)-1].(*ssa.Return); isRet {
+						continue
+					}
+					// a break: only with the level found registered and unexpired
+					if st := a.edgeState(tb.root, e.from, e.to); st != nil && !(a.holdsAt(st, -a.litNil(rd)) && a.holdsAt(st, ltLit)) {
+						ok, why = false, "the loop over the suffixes can be left early"
+					}
+				}
+			}
+			if nHdr != 1 {
+				ok, why = false, "expected one loop over the suffix levels"
+			}
+		}
+		// the suffix of level i starts after the first i labels and their dots: sum starts at 0 and
+		// advances by len(label i) + 1; levels 0 … len(labels) − 2
+		if ok {
+			okArith := false
+			for _, h := range fn.Blocks {
+				if !isLoopHeader(h) {
+					continue
+				}
+				ifi, isIf := h.Instrs[len(h.Instrs)-1].(*ssa.If)
+				if !isIf {
+					continue
+				}
+				ct := tb.Term(tb.root, ifi.Cond)
+				if ct.Op != "bin" || ct.Name != "<" || len(ct.Args) != 2 || ct.Args[0].Op != "phi" {
+					continue
+				}
+				i := ct.Args[0]
+				var frs *Term
+				if ct.Args[1].Op == "sum" {
+					ct.Args[1].walk(func(x *Term) bool {
+						if x.Op == "len" {
+							frs = x.Args[0]
+						}
+						return true
+					})
+				}
+				if frs == nil || ct.Args[1] != tb.binop(token.SUB, tb.mk("len", "", 0, frs), tb.constInt(1), intType) {
+					continue
+				}
+				iOK := false
+				{
+					z, st := false, false
+					for _, al := range tb.Alts(i) {
+						if n, isC := al.IntConst(); isC && n == 0 {
+							z = true
+						} else if al == tb.binop(token.ADD, i, tb.constInt(1), intType) {
+							st = true
+						} else {
+							z = false
+						}
+					}
+					iOK = z && st
+				}
+				// the sum variable: the low bound of the returned / looked-up suffix
+				for _, ex := range a.Exits() {
+					if len(ex.Results) != 1 || ex.Results[0].Op != "slice" || ex.Results[0].Args[0] != name {
+						continue
+					}
+					sum := ex.Results[0].Args[1]
+					if sum.Op != "phi" {
+						continue
+					}
+					z, st := false, false
+					for _, al := range tb.Alts(sum) {
+						if n, isC := al.IntConst(); isC && n == 0 {
+							z = true
+						} else if d := tb.binop(token.SUB, tb.binop(token.SUB, al, sum, intType), tb.constInt(1), intType); d.Op == "len" &&
+							(d.Args[0].Op == "index" && d.Args[0].Args[0] == frs && d.Args[0].Args[1] == i || d.Args[0].Op == "elem" && d.Args[0].Args[0] == frs && tb.indexOfElem(d.Args[0]) == i) {
+							st = true
+						} else {
+							z = false
+						}
+					}
+					if iOK && z && st {
+						okArith = true
+					}
+				}
+			}
+			if !okArith {
+				ok, why = false, "the suffix of level i does not start after the first i labels and their dots (or the levels are not 0 … len−2)"
+			}
+		}
+		cx.decide(ok, "record-owner", "nns.tokenIDFromName", "the longest registered, unexpired proper suffix, else the name itself", "nns.tokenIDFromName: "+why+" — records are filed under (and read from) another token", w.pos(fn.Pos()))
+	}
 }
